@@ -22,6 +22,8 @@ ASSUMPTIONS = [
     "TO_TIMEZONE from a pool of fixed-offset spellings; PREFER_* symbolic; clock stub when no RELATIVE_BASE",
     "any exception that leaves get_date_data on a feasible path (arguments are valid) is a counterexample; the result "
     "must be a DateData with period in {time,day,week,month,year} and date_obj None iff locale None",
+    "token soups: strings of 2 (thorough: 3) tokens drawn by symbolic choice from a pool of 45 English date words, "
+    "separators, zone words and numeric fields whose digits are symbolic, reference instant over the full range",
     "settings validation: a finite table of (key, candidate value) pairs, each tried after a call with a valid value of "
     "the same key (history of length 2), the date string symbolic; the oracle is an independent validity table",
     "date theory (symx.dates) stands for CPython datetime/calendar; symbolic regex stands for re/regex on templates",
@@ -92,6 +94,58 @@ def h_total(template, base_kind, tz, to_tz, parsers=None, aware=None, base_years
             dd = C.api(s, languages=["en"], settings=st)
         except n.CONF.SettingValidationError as e:
             return C.outcome(False, wit, "raised:SettingValidationError", {"exception": str(e)[:200]})
+        ok = dd.period in PERIODS and ((dd.date_obj is None) == (dd.locale is None)) and \
+            (dd.date_obj is None or isinstance(dd.date_obj, dates.SDateTime))
+        return C.outcome(bool(ok), wit, "none" if dd.date_obj is None else "value")
+    return fn
+
+
+# ------------------------------------------------------------------------------------------------ token soups
+SOUP = ["monday", "mon", "march", "mar", "sept", "ago", "in", "hour", "hours", "day", "week", "month", "year", "decade",
+        "at", "pm", "am", "utc", "+0530", "est", "t", "z", "of", "and", "now", "today", "yesterday", "next", "last",
+        ":", "-", "/", ".", ",", "(", ")", "N1", "N2", "N4", "N2:N2", "N4-N2-N2", "N2.N2", "'N2", "N2th", "-N4"]
+
+
+def _soup_token(tok, pos, v):
+    """token -> template parts; N<k> is a fresh symbolic k-digit field"""
+    import re
+    parts = []
+    j = 0
+    for piece in re.split(r"(N\d)", tok):
+        if re.fullmatch(r"N\d", piece):
+            name = "n%d_%d" % (pos, j)
+            j += 1
+            w = int(piece[1])
+            v[name] = C.field(name, 0, 10 ** w - 1)
+            parts.append((name, w))
+        elif piece:
+            parts.append(piece)
+    return parts
+
+
+def h_soup(k, first, glue=" ", second=None):
+    """strings made of k tokens drawn by symbolic choice from a pool of date words, separators and numeric fields with
+    symbolic digits (the 'token soups / digit-separator soups' of the quantifier, bounded)"""
+    def fn():
+        n = C.ns()
+        idx = [first]
+        if second is not None:
+            idx.append(second)
+        while len(idx) < k:
+            idx.append(core.concretize(C.field("tok%d" % len(idx), 0, len(SOUP) - 1)))
+        v = {}
+        parts = []
+        for pos, i in enumerate(idx):
+            if pos:
+                parts.append(glue)
+            parts += _soup_token(SOUP[i], pos, v)
+        b = C.sym_base("b", 1, 9999)
+        st = {"RELATIVE_BASE": b, "PREFER_DATES_FROM": "future"}
+        wit = dict(v)
+        wit.update({"tok%d" % j: i for j, i in enumerate(idx)})
+        wit.update(C.base_witness(b))
+        s = tmpl(parts, v)
+        dd = C.api(s, languages=["en"], settings=st)
         ok = dd.period in PERIODS and ((dd.date_obj is None) == (dd.locale is None)) and \
             (dd.date_obj is None or isinstance(dd.date_obj, dates.SDateTime))
         return C.outcome(bool(ok), wit, "none" if dd.date_obj is None else "value")
@@ -212,6 +266,20 @@ def tasks(tier, seed):
                                                          "prefs": {"PREFER_DATES_FROM": ["future", "past"][j % 2]}}, 200)
     for key in sorted(_candidates()):
         add("settings:%s" % key, "h_settings", {"key": key}, 200)
+    # token soups: quick = all 2-token strings starting with a seed-rotated eighth of the pool; thorough = all 2-token
+    # strings with both glues and the 3-token strings (split by the first two tokens)
+    firsts = range(len(SOUP))
+    if quick:
+        firsts = [i for i in firsts if (i + seed) % 8 == 0]
+    for i in firsts:
+        add("soup:2:%s" % SOUP[i], "h_soup", {"k": 2, "first": i}, 120)
+        if not quick:
+            add("soup:2:%s:glued" % SOUP[i], "h_soup", {"k": 2, "first": i, "glue": ""}, 120)
+    if not quick:
+        for i in range(len(SOUP)):
+            for j in range(len(SOUP)):
+                if (i + j + seed) % 5 == 0:     # a seed-rotated fifth of the 2,025 (first, second) pairs per run
+                    add("soup:3:%s %s" % (SOUP[i], SOUP[j]), "h_soup", {"k": 3, "first": i, "second": j}, 12)
     return out
 
 
@@ -221,6 +289,28 @@ def build_spec(task, viol):
     a = task["args"]
     if task["fn"] == "h_settings":
         return {"task": task["name"], "fn": "h_settings", "key": a["key"], "witness": w}
+    if task["fn"] == "h_soup":
+        idx = [a["first"]] + ([a["second"]] if a.get("second") is not None else [])
+        while len(idx) < a["k"]:
+            idx.append(w["tok%d" % len(idx)])
+        parts, v = [], {}
+
+        class _F:   # render needs only names/widths
+            pass
+        import re
+        for pos, i in enumerate(idx):
+            if pos:
+                parts.append(a.get("glue", " "))
+            j = 0
+            for piece in re.split(r"(N\d)", SOUP[i]):
+                if re.fullmatch(r"N\d", piece):
+                    parts.append(("n%d_%d" % (pos, j), int(piece[1])))
+                    j += 1
+                elif piece:
+                    parts.append(piece)
+        st = {"RELATIVE_BASE": C.base_from_witness(w), "PREFER_DATES_FROM": "future"}
+        return {"task": task["name"], "fn": "h_total", "witness": w, "clock": None,
+                "call": {"string": render(parts, w), "languages": ["en"], "settings": st}}
     st = C.spec_settings(dict(a.get("prefs") or {}), w)
     if a["tz"]:
         st["TIMEZONE"] = a["tz"]
